@@ -265,13 +265,16 @@ def _keyable(c):
           and not c.summarySourceCol)
 
 
+# ("sumlookup" only where a profile asks for it: finding F-p)
+DEFAULT_FORMULA_KINDS = ["arith", "arith", "str", "ref", "ref", "reflist", "lookup", "lookup", "lookupone",
+                         "count", "all", "twopath", "twopath", "contains", "find", "prevnext", "lazy",
+                         "swallow"]
+
+
 def gen_formula(g, dv, t, limit_ref=None, kinds=None):
   """Return a formula text for a column of table t (None if nothing applies)."""
   rng = g.rng
-  kinds = list(kinds or g.cfg.get("formula_kinds",
-               ["arith", "arith", "str", "ref", "ref", "reflist", "lookup", "lookup", "lookupone",
-                "count", "all", "twopath", "twopath", "contains", "find", "prevnext", "lazy",
-                "swallow"]))      # ("sumlookup" only where a profile asks for it: finding F-p)
+  kinds = list(kinds or g.cfg.get("formula_kinds", DEFAULT_FORMULA_KINDS))
   rng.shuffle(kinds)
   own = _earlier(dv, t, limit_ref)
   for kind in kinds:
